@@ -9,9 +9,23 @@ pub fn hex(b: &[u8]) -> String {
     s
 }
 
+/// canonical value token: long uniform values are run-length coded (`z<len>:<hh>`), else hex
+pub fn vtok(b: &[u8]) -> String {
+    if b.len() >= 64 && b.iter().all(|x| *x == b[0]) {
+        return format!("z{}:{:02x}", b.len(), b[0]);
+    }
+    hex(b)
+}
+
 pub fn unhex(s: &str) -> Vec<u8> {
     if s == "-" {
         return Vec::new();
+    }
+    if let Some(rest) = s.strip_prefix('z') {
+        let (n, b) = rest.split_once(':').expect("z token");
+        let n: usize = n.parse().expect("z len");
+        let b = u8::from_str_radix(b, 16).expect("z byte");
+        return vec![b; n];
     }
     let b = s.as_bytes();
     let mut v = Vec::with_capacity(b.len() / 2);
